@@ -153,3 +153,78 @@ func errorHandedOn(v ssa.Value, b *ssa.BasicBlock, e ssa.Value, depth int) strin
 	}
 	return "returns a value that is not known to be an error when the call failed"
 }
+
+// c04BoundedParsers: foreign parsers that allocate what the peer announces before the bytes are there. The table is
+// frozen from reading the dependency (golang.org/x/net v0.30.0 http2/frame.go: ReadFrame allocates make([]byte, size)
+// for the 24-bit length of the frame header, up to the framer's maxReadSize, 16 MiB by default, and only then reads
+// the payload): in per-connection code such a parser's limit must be set to a constant of at most 64 KiB + 1 KiB on
+// every path before it reads.
+var allocatingParsers = []struct{ ctor, read, limit, why string }{
+	{"golang.org/x/net/http2.NewFramer", "(*golang.org/x/net/http2.Framer).ReadFrame", "(*golang.org/x/net/http2.Framer).SetMaxReadFrameSize",
+		"ReadFrame allocates the payload length announced by the 9-byte frame header (up to maxReadSize, 16 MiB unless set) before the payload is read"},
+}
+
+func c04BoundedParsers(c *Ctx, r *Report, rule string) {
+	r.rule(rule, "foreign parsers that allocate what the peer announces (frozen table: http2.Framer.ReadFrame allocates the announced frame length, 16 MiB unless limited): in per-connection code the limit is set to a constant <= 66560 on every path from the constructor to each read", 1)
+	reach := c.perConnReach()
+	n := 0
+	for _, fn := range sortedFuncs(reach) {
+		for _, ci := range callsIn(fn) {
+			call, ok := ci.(*ssa.Call)
+			if !ok {
+				continue
+			}
+			for _, ap := range allocatingParsers {
+				if calleeID(call) != ap.ctor {
+					continue
+				}
+				n++
+				isLimit := func(in ssa.Instruction) bool {
+					c2, ok := in.(*ssa.Call)
+					if !ok || calleeID(c2) != ap.limit || len(c2.Call.Args) < 2 || !derivesFrom(c2.Call.Args[0], call) {
+						return false
+					}
+					v := c2.Call.Args[1]
+					for {
+						cv, ok := v.(*ssa.Convert)
+						if !ok {
+							break
+						}
+						v = cv.X
+					}
+					k, isConst := constInt(v)
+					return isConst && k > 0 && k <= 66560
+				}
+				isRead := func(in ssa.Instruction) bool {
+					c2, ok := in.(*ssa.Call)
+					return ok && calleeID(c2) == ap.read && len(c2.Call.Args) >= 1 && derivesFrom(c2.Call.Args[0], call)
+				}
+				// the parser handed to another function is out of sight: undecided
+				escapes := ""
+				for _, ref := range *call.Referrers() {
+					if c2, ok := ref.(ssa.CallInstruction); ok && c2.Common().StaticCallee() != nil {
+						if id := calleeID(c2); !strings.HasPrefix(id, "(*golang.org/x/net/http2.Framer).") {
+							escapes = id
+						}
+					}
+				}
+				if escapes != "" {
+					r.bad(rule, fname(fn), ap.ctor, c.ipos(call), "undecided: the parser is handed to "+escapes)
+					continue
+				}
+				unlimited := pathAvoiding(call, isRead, isLimit)
+				r.check(unlimited == nil, rule, fname(fn), ap.ctor, c.ipos(call),
+					"the limit is set to a constant <= 66560 before every read",
+					fmt.Sprintf("the read at %s is reached without the parser's limit having been set: %s - a few bytes from a peer make the matcher allocate up to 16 MiB per matching round, far beyond the matching buffer limit", func() string {
+						if unlimited != nil {
+							return c.ipos(unlimited)
+						}
+						return "-"
+					}(), ap.why))
+			}
+		}
+	}
+	if n == 0 {
+		r.bad(rule, "module", "instances", "-", "no use of a parser of the table found in per-connection code (the http matcher's HTTP/2 framer is one)")
+	}
+}
